@@ -79,7 +79,7 @@ Proof.
 Qed.
 
 (* ---- extend_rec *)
-Definition istep (g : nat) : list A -> option (node * list A) :=
+Definition interior_step (g : nat) : list A -> option (node * list A) :=
   fun it0 => match extend_rec B g [] it0 with
              | Some (sub, it1) => Some (Interior sub, it1)
              | None => None
@@ -111,7 +111,7 @@ Lemma extend_rec_SS : forall g ch it,
       match extend_rec B (S g) sub it with
       | Some (sub', it1) =>
           let ch1 := list_set ch (length ch - 1) (Interior sub') in
-          match fill_loop (istep (S g)) (B - length ch1) it1 with
+          match fill_loop (interior_step (S g)) (B - length ch1) it1 with
           | Some (more, rest) => Some (ch1 ++ more, rest)
           | None => None
           end
@@ -119,7 +119,7 @@ Lemma extend_rec_SS : forall g ch it,
       end
   | Some (Leaf _) => None
   | None =>
-      match fill_loop (istep (S g)) (B - length ch) it with
+      match fill_loop (interior_step (S g)) (B - length ch) it with
       | Some (more, rest) => Some (ch ++ more, rest)
       | None => None
       end
@@ -189,9 +189,9 @@ Proof.
     apply pkl_of_Forall; [auto|exact F0|]. intros ->. cbn in L0. lia.
 Qed.
 
-Lemma istep_ok : forall g, ext_ok g -> step_ok (S g) (istep (S g)).
+Lemma interior_step_ok : forall g, ext_ok g -> step_ok (S g) (interior_step (S g)).
 Proof.
-  intros g Hg it Hne. unfold istep.
+  intros g Hg it Hne. unfold interior_step.
   destruct (Hg [] it (or_introl eq_refl)) as (ch' & it' & taken & -> & Eit & Efl & Pf & Pt).
   cbn [flat_map app] in Efl.
   eexists. eexists. split; [reflexivity|]. cbn [node_list]. rewrite Efl.
@@ -265,10 +265,10 @@ Qed.
 Lemma ext_ok_S : forall g, ext_ok g -> ext_ok (S g).
 Proof.
   intros g Hg ch it Hch. rewrite extend_rec_SS.
-  pose proof (istep_ok g Hg) as Hstep.
+  pose proof (interior_step_ok g Hg) as Hstep.
   destruct Hch as [->|P].
   - cbn [last_opt length].
-    destruct (ext_fresh (S g) (istep (S g)) it Hstep) as (more & rest & taken & -> & Eit & Efl & Pf & Pt).
+    destruct (ext_fresh (S g) (interior_step (S g)) it Hstep) as (more & rest & taken & -> & Eit & Efl & Pf & Pt).
     exists more, rest, taken. cbn [app flat_map]. split; [reflexivity|]. split; [exact Eit|].
     split; [exact Efl|]. split; [exact Pf|]. intros [H|H]; [congruence|apply Pt; exact H].
   - destruct (pk_S_inv B _ _ _ P) as (init & c & E & I1 & I2 & Hi & Pc). injection E as ->.
@@ -280,7 +280,7 @@ Proof.
       by (rewrite app_length; reflexivity).
     assert (Hsub : sub <> []).
     { destruct (pk_S_ch B HB _ _ _ Pc) as (L1 & _). intros ->. cbn in L1. lia. }
-    destruct (ext_after_last (S g) (istep (S g)) init (Interior sub) (Interior sub') it
+    destruct (ext_after_last (S g) (interior_step (S g)) init (Interior sub) (Interior sub') it
                 taken1 it1 Hstep Hi I1 Eit1 Efl1 (Pt1 (or_introl Hsub)) Pf1)
       as (more & rest & taken & -> & Eit & Efl & Pf & Pt).
     exists ((init ++ [Interior sub']) ++ more), rest, taken.
